@@ -53,6 +53,10 @@ def fn_facts(f):
         elif e['k'] in ('construct', 'initlist'):
             t = re.match(r'(?:typename\s+)?(?:std::|unifex::)?([A-Za-z_]\w*)', e.get('type') or '')
             if t: callees.add('new ' + t.group(1))
+            if 'scope_guard' in (e.get('type') or ''): acts.add('scope_guard')          # an RAII clean-up step (runs on every exit, exceptional ones included)
+        elif e['k'] == 'decl':
+            for v in e['vars']:
+                if 'scope_guard' in ((v.get('type') or '') + (v.get('wtype') or '')): acts.add('scope_guard')
     return acts, edges_of(f), callees
 
 
